@@ -78,13 +78,33 @@ fn obs_obs<C: ObservableReasoning<Observation> + ?Sized>(c: &C, sorted: bool, th
     out.push(bits(c.percent_non_observation(thr, tgt)));
 }
 
+// VecDeque is a ring buffer: the same logical sequence can be stored contiguously or wrapped around the end of its
+// storage (after push_front / rotation).  Even lengths are built WRAPPED (second half pushed back, first half pushed
+// to the front), odd lengths contiguously, so both representations are exercised.
+fn mk_deque<T>(items: Vec<T>) -> std::collections::VecDeque<T> {
+    let n = items.len();
+    if n < 2 || n % 2 == 1 {
+        return items.into_iter().collect();
+    }
+    let mut front = items;
+    let back = front.split_off(n / 2);
+    let mut d = std::collections::VecDeque::with_capacity(n);
+    for x in back {
+        d.push_back(x);
+    }
+    for x in front.into_iter().rev() {
+        d.push_front(x);
+    }
+    d
+}
+
 enum Cont<T> { Slice(Box<[T]>), V(Vec<T>), D(VecDeque<T>), B(BTreeMap<usize, T>), H(HashMap<usize, T>) }
 
 fn mk<T>(cont: i128, items: Vec<T>) -> Cont<T> {
     match cont {
         0 => Cont::Slice(items.into_boxed_slice()),
         1 => Cont::V(items),
-        2 => Cont::D(items.into_iter().collect()),
+        2 => Cont::D(mk_deque(items)),
         3 => Cont::B(items.into_iter().enumerate().collect()),
         _ => Cont::H(items.into_iter().enumerate().collect()),
     }
